@@ -29,7 +29,7 @@ type CliCase struct {
 func genCli(t *rapid.T) CliCase {
 	o := parsedOptions()
 	o.MaxCommits = 8
-	c := CliCase{History: ggen.Gen(t, o)}
+	c := CliCase{History: genHistory(t, o, 20)}
 	if rapid.IntRange(0, 2).Draw(t, "flagSubset") == 2 {
 		c.Omit = rapid.IntRange(1, 30).Draw(t, "omit")
 	}
@@ -302,6 +302,7 @@ func checkCli(c CliCase) pbt.Verdict {
 	add(ref.renames > 0, "rename")
 	add(ref.deletes > 0, "delete")
 	add(authors >= 2, "authors>=2")
+	v.Classes = append(v.Classes, teamClasses(syn)...)
 	add(files > 20, "files_left>20")
 	add(files == 0, "no_file_left")
 	add(len(ref.change) > 0, "conventional_subjects")
